@@ -1024,7 +1024,7 @@ enum BangType {
     /// <!--...-->
     Comment,
     /// <!DOCTYPE...>. Contains balance of '<' (+1) and '>' (-1)
-    DocType(i32),
+    DocType(u64),
 }
 impl BangType {
     #[inline(always)]
